@@ -88,6 +88,23 @@ partial def dropEmpty : J → J
   | .arr l => .arr (l.map dropEmpty)
   | v => v
 
+/-- issuer-option semantics for leaves: walking the clear containers of the signed payload, a leaf claim at path `p` is
+    in the clear exactly when `p` is listed as non-selectively-disclosable -/
+partial def visibility (nonsd : List String) (pre : String) (cl e : J) : Option String :=
+  match cl, e with
+  | .obj ckvs, .obj ekvs =>
+    ckvs.findSome? fun (k, cv) =>
+      let p := if pre == "" then k else pre ++ "." ++ k
+      let ev : Option J := (ekvs.find? (fun kv => kv.1 == k)).map (fun kv => kv.2)
+      match cv, ev with
+      | J.obj _, some (J.obj sub) =>
+          if nonsd.contains p then none else visibility nonsd p cv (J.obj sub)   -- clear container: descend
+      | J.obj _, _ => none
+      | J.arr _, _ => none
+      | _, some _ => if nonsd.contains p then none else some s!"CLAIM-IN-CLEAR-NOT-LISTED {p}"
+      | _, none => if nonsd.contains p then some s!"NON-SD-CLAIM-HIDDEN {p}" else none
+  | _, _ => none
+
 def parseTamper : String → Tamper
   | "forge" => .forge | "dup" => .dup | "alter" => .alter | _ => .none
 
@@ -112,11 +129,17 @@ def judge (input impl : String) : String × String × String :=
         match disclose ⟨T, S, false⟩ fuel E ⟨[], []⟩ with
         | .ok (_, a) => !(S.all a.found.contains)
         | .error _ => true
-      if tamper != .none || hb ≥ 2 then
+      if tamper != .none || (hb ≥ 2 && hb != 8) then
         (modelCol, if implOut.isNone then "=" else "TAMPERED-PRESENTATION-ACCEPTED", "")
       else if orphan then
         (modelCol, if implOut.isNone then "=" else "UNVERIFIABLE-DISCLOSURE-ACCEPTED", "")
       else
+        let nonsd := match cse.get? "nonsd" with
+          | some (.arr l) => l.filterMap fun | .str s => some s | _ => none
+          | _ => []
+        match visibility nonsd "" claims E with
+        | some msg => (modelCol, "ISSUER " ++ msg, "")
+        | none =>
         match project T S claims E with
         | .error msg => (modelCol, "ORACLE " ++ msg, "")
         | .ok expClaims =>
